@@ -230,6 +230,9 @@ ApplyAugs(ms, mod, on, scope, seq, augs) ==
 
 ExpandOne(ms, mod, on, scope, s) ==
     IF s.iff # "" /\ s.iff \notin on THEN << >>
+    \* actions travel with their grouping but are not part of the data tree compared here (the
+    \* harness checks the integrity of their copies: parents, no object shared between uses)
+    ELSE IF s.k = "action" THEN << >>
     ELSE IF s.k = "uses" THEN
         LET l == Lookup(ms, mod, scope, s.ref0)
             inner == Expand(ms, l.mod, on, << [gs |-> l.g.gs, tds |-> l.g.tds] >> \o l.scope, l.g.c)
